@@ -220,8 +220,8 @@ func TestPipelinedTxn(t *testing.T) {
 		// wait for the asynchronous range resolution (nothing expires: the clocks are untouched)
 		probe := tikv.StoreProbe{KVStore: cl.Clients[2].Store}
 		var left []string
-		deadline := time.Now().Add(4 * time.Second)
-		for {
+		// (bounded by polls, not by a wall-clock deadline: a paused or starved process must not turn into a verdict)
+		for poll := 0; ; poll++ {
 			cl.Drain(3*time.Millisecond, time.Second)
 			locks, err := probe.ScanLocks(ctx, nil, []byte{0xff, 0xff}, math.MaxUint64)
 			if err != nil {
@@ -233,7 +233,7 @@ func TestPipelinedTxn(t *testing.T) {
 					left = append(left, string(l.Key))
 				}
 			}
-			if len(left) == 0 || time.Now().After(deadline) {
+			if len(left) == 0 || poll >= 250 {
 				break
 			}
 			time.Sleep(20 * time.Millisecond)
